@@ -742,8 +742,8 @@ Proof. exact chunk_selector_expands. Qed.
 
 (* for EVERY index of the first dimension — int (first axis dropped), slice with any bounds and step, Ellipsis, (),
    index list, boolean mask, and tuples of one of them with an Ellipsis after it — both classes are the index-level
-   definition on the designated grid points; the exceptions too: IndexError (int / list entry off the axis, mask of
-   another length, two Ellipsis), ValueError (step 0), and an element index off the probe (IndexError in the function
+   definition on the designated grid points; the exceptions too: IndexError (int / list entry off the axis, non-empty mask
+   of another length — an EMPTY mask is accepted on every axis and designates no grid point —, two Ellipsis), ValueError (step 0), and an element index off the probe (IndexError in the function
    class; undefined in the matrix class).  Any integer dtype of tx / rx, booleans included *)
 Theorem amplitude_selector_indexing_fn : forall (T : Type) (N : Num T) tx rx ne ng Qtx Qrx Ttx Trx a o,
   length tx = length rx -> factory tx rx ne ng Qtx Qrx Ttx Trx a = Some o ->
@@ -880,6 +880,32 @@ Theorem single_rx_index_is_broadcast_fn : forall (T : Type) (N : Num T) (S : T -
   getitem_fn_sel N S (mkAmp tx [j] qtx qrx ttx trx a np nel) dtx drx sel
   = getitem_fn_sel N S (mkAmp tx (repeat j (length tx)) qtx qrx ttx trx a np nel) dtx drx sel.
 Proof. intros T N S tx j qtx qrx ttx trx a np nel dtx drx sel H. exact (fn_single_rx_is_broadcast N S tx j qtx qrx ttx trx a np nel dtx drx sel H). Qed.
+
+(* [repair after the tie C08] a boolean mask as index: accepted exactly when it has the length of the axis OR is empty —
+   numpy accepts a boolean index of size 0 on an axis of ANY length and selects nothing
+   (np.arange(4)[np.array([], dtype=bool)] = []); the model used to answer IndexError for every length other than the
+   axis'.  Any other length: IndexError.  The theorems above are stated through expand_sel / mask_indices and hold
+   unchanged with the empty-mask case included *)
+Theorem mask_accepted_iff_axis_length_or_empty : forall n m,
+  (forall idx, mask_indices n m = GOk idx <-> (length m = n \/ m = []) /\ idx = mask_positions 0 m) /\
+  (forall e, mask_indices n m = GRaise e <-> e = EIndex /\ length m <> n /\ m <> []).
+Proof. intros n m. split; [intros idx; exact (mask_indices_ok_iff n m idx) | intros e; exact (mask_indices_raises_iff n m e)]. Qed.
+
+(* model_amplitudes[np.array([], dtype=bool)] on a grid of ANY size: no exception, the array of shape (0, numtimetraces)
+   (no rows), in both classes — whatever the element indices, since no grid point is read *)
+Theorem empty_mask_selects_nothing : forall (T : Type) (N : Num T) tx rx ne ng Qtx Qrx Ttx Trx a o,
+  length tx = length rx -> factory tx rx ne ng Qtx Qrx Ttx Trx a = Some o ->
+  (forall (S : T -> T -> T * T) dtx drx, idx_ok_fn dtx = true -> idx_ok_fn drx = true ->
+     getitem_fn_sel N S o dtx drx [GMask []] = GOk (A2 [])) /\
+  (forall (P : T) (M : list (list (T * T))) dtx drx, idx_ok_mat dtx = true -> idx_ok_mat drx = true -> mat_ok M = true ->
+     getitem_mat_sel N P M o dtx drx [GMask []] = GOk (A2 [])).
+Proof.
+  intros T N tx rx ne ng Qtx Qrx Ttx Trx a o H1 H2. split.
+  - intros S dtx drx Hx Hr.
+    rewrite (getitem_fn_sel_is_spec N tx rx ne ng Qtx Qrx Ttx Trx a o H1 H2 S dtx drx [GMask []] eq_refl Hx Hr). reflexivity.
+  - intros P M dtx drx Hx Hr Hm.
+    rewrite (getitem_mat_sel_is_spec N tx rx ne ng Qtx Qrx Ttx Trx a o H1 H2 P M dtx drx [GMask []] eq_refl Hx Hr Hm). reflexivity.
+Qed.
 
 (* ----- 6.3 model_amplitudes_factory on the RayWeights namedtuple ----- *)
 
@@ -1138,6 +1164,8 @@ Section Examples6.
     gi sc_fn DtInt DtInt [GInt 3] = GRaise EIndex /\
     gi sc_fn DtInt DtInt [GSlice None None (Some 0%Z); GDots] = GRaise EValue /\
     gi sc_fn DtInt DtInt [GMask [true; false]] = GRaise EIndex /\
+    gi sc_fn DtInt DtInt [GMask []] = GOk (A2 []) /\
+    gi sc_mat DtInt DtInt [GMask []; GDots] = GOk (A2 []) /\
     gi sc_fn DtInt DtInt [GInt 0; GInt 1] = GRaise EIndex /\
     gi sc_fn DtInt DtInt [GNone] = GRaise EIndex /\
     gi sc_fn DtInt DtInt [GDots; GDots] = GRaise EIndex /\
